@@ -205,19 +205,29 @@ func workerMain(args []string) {
 
 // ReplayFile is the on-disk form of one run.
 type ReplayFile struct {
-	Property  string   `json:"property"`
-	Tier      string   `json:"tier"`
-	Seed      uint64   `json:"seed"`
-	RunIndex  int64    `json:"run_index"`
-	Sub       string   `json:"sub,omitempty"`
-	Tape      []uint32 `json:"tape"`
-	Signature string   `json:"signature"`
-	Detail    string   `json:"detail"`
-	Input     string   `json:"input,omitempty"`
-	SiteHash  string   `json:"site_table_hash,omitempty"`
-	RepoHash  string   `json:"repo_tree_hash,omitempty"`
-	Note      string   `json:"note,omitempty"`
+	Property  string      `json:"property"`
+	Tier      string      `json:"tier"`
+	Seed      uint64      `json:"seed"`
+	RunIndex  int64       `json:"run_index"`
+	Sub       string      `json:"sub,omitempty"`
+	Tape      []uint32    `json:"tape"`
+	Signature string      `json:"signature"`
+	Detail    string      `json:"detail"`
+	Input     string      `json:"input,omitempty"`
+	SiteHash  string      `json:"site_table_hash,omitempty"`
+	RepoHash  string      `json:"repo_tree_hash,omitempty"`
+	Note      string      `json:"note,omitempty"`
+	Target    *TargetSpec `json:"target,omitempty"`
 }
+
+// TargetSpec asks for the directed schedule that makes two statements adjacent (race witness).
+type TargetSpec struct {
+	Park string `json:"park"` // file:line of the statement before which a task is parked
+	Peer string `json:"peer"` // file:line of the statement a peer must have just executed
+	Nth  int    `json:"nth"`  // which arrival at the park statement parks
+}
+
+var schedTarget *TargetSpec
 
 // replayMain re-executes one tape in this fresh process and prints what happened as JSON:
 // {"violated":bool,"signature":...,"detail":...,"hash":...}.
@@ -242,6 +252,7 @@ func replayMain(args []string) {
 		os.Exit(2)
 	}
 	subBatch = rf.Sub
+	schedTarget = rf.Target
 	agg := newAgg(p.id)
 	rl := newRaceLog()
 	v := oneRun(p, agg, rf.Seed, rf.RunIndex, rf.Tape, true, true, rl)
